@@ -348,6 +348,12 @@ fn join(a: DS<i64>, b: DS<i64>, kind: u8, ship: u8, local: u8) -> DS<i64> {
         };
     }
     match (ship, local) {
+        // the one-call forms of the API
+        (2, _) => match kind {
+            0 => erase(a.join(b, k1, k2).unkey().map(|(_, (l, r))| enc_pair(Some(l), Some(r)))),
+            1 => erase(a.left_join(b, k1, k2).unkey().map(|(_, (l, r))| enc_pair(Some(l), r))),
+            _ => erase(a.outer_join(b, k1, k2).unkey().map(|(_, (l, r))| enc_pair(l, r))),
+        },
         (0, 0) => finish!(a.join_with(b, k1, k2).ship_hash().local_hash()),
         (0, _) => finish!(a.join_with(b, k1, k2).ship_hash().local_sort_merge()),
         (_, 0) => finish_bc!(a.join_with(b, k1, k2).ship_broadcast_right().local_hash()),
@@ -730,7 +736,7 @@ pub fn well_formed(prog: &Program, src: Rep) -> Option<usize> {
             Instr::Join(_, ship, _) => {
                 let _b = st.pop()?;
                 let a = st.pop()?;
-                if *ship == 0 {
+                if *ship == 0 || *ship == 2 {
                     st.push(Rep::Unl);
                 } else {
                     st.push(a);
